@@ -60,6 +60,11 @@ def run(ctx, res):
     from ..channelinduct import rule_induct
     res.guard(rule_induct, prog, res, with_mapped=True)
     res.require_min("R-INDUCT", 12)
+    # what the client maps with frame averaging on are the filter's frames: a sum that starts from stale ring
+    # bytes is not "the frame's pixel bytes" once the ring has wrapped
+    from .c10 import init_rmw
+    res.guard(init_rmw, prog, res, prog.func("process_data"))
+    res.require_min("O-INIT-RMW", 1)
     res.require_min("R-UNMAPPED-PRE", 2)
     res.require_min("R-STOP-SEQ", 5)
     res.require_min("R-PASSTHROUGH", 2)
